@@ -236,7 +236,7 @@ def make_pad(rng, nbytes, unicode_p=0.0):
     return "".join(out)
 
 
-SIZE_CLASSES = {"tiny": 0, "k8": 9000, "k64": 70000, "k160": 160000, "k256": 270000, "k600": 600000, "m1": 1200000, "m2": 2000000}
+SIZE_CLASSES = {"tiny": 0, "k8": 9000, "k64": 70000, "k160": 160000, "k256": 270000, "k600": 600000, "m1": 1200000, "m2": 2000000, "m17": 17500000}
 
 
 class Gen:
